@@ -186,11 +186,11 @@ def fam_dunder(tier: str, rng: random.Random) -> Iterator[dict]:
     public method: the exhaustive small placements and a sample of the DAG family with the member renamed."""
     small = list(fam_hier_small(tier, rng))
     if tier == "quick":
-        small = rng.sample(small, min(len(small), 350))
+        small = rng.sample(small, min(len(small), 220))
     for h in small:
         yield renamed(h, "f", "__call__")
     big = [h for h in fam_hier(tier, rng) if all(m["kind"] == "fn" for c in h["cls"] for m in c["members"])]
-    for h in rng.sample(big, min(len(big), 150 if tier == "quick" else 1500)):
+    for h in rng.sample(big, min(len(big), 100 if tier == "quick" else 1500)):
         yield renamed(h, "f", "__call__")
 
 
@@ -203,7 +203,7 @@ def fam_async_members(tier: str, rng: random.Random) -> Iterator[dict]:
     pool += [h for h in fam_hier(tier, rng) if all(m["kind"] == "fn" and not any(d["d"] == "foreign" for d in m["decos"])
                                                    for c in h["cls"] for m in c["members"])]
     if tier == "quick":
-        pool = rng.sample(pool, min(len(pool), 600))
+        pool = rng.sample(pool, min(len(pool), 350))
     for h in pool:
         if any(m["kind"] != "fn" for c in h["cls"] for m in c["members"]):
             continue
@@ -219,7 +219,7 @@ def fam_precalled(tier: str, rng: random.Random) -> Iterator[dict]:
     import copy
     pool = list(fam_hier_small(tier, rng))
     if tier == "quick":
-        pool = rng.sample(pool, min(len(pool), 400))
+        pool = rng.sample(pool, min(len(pool), 250))
     for h in pool:
         q = copy.deepcopy(h)
         for c in q["cls"]:
@@ -294,7 +294,7 @@ def fam_recreated(tier: str, rng: random.Random) -> Iterator[dict]:
     pool += [h for h in fam_hier(tier, rng) if not any(d["d"] == "foreign" for c in h["cls"] for m in c["members"]
                                                        for d in m["decos"])]
     if tier == "quick":
-        pool = rng.sample(pool, min(len(pool), 500))
+        pool = rng.sample(pool, min(len(pool), 300))
     for h in pool:
         n = len(h["cls"])
         j = rng.randint(1, n)
